@@ -92,6 +92,12 @@ def is_trace_preserving(
     # If the variable `phi` is provided as a list, we assume this is a list
     # of Kraus operators.
     if isinstance(phi, list):
+        # A flat list [K_1, ..., K_r], a column [[K_1], ..., [K_r]] or a single row [[K_1, ..., K_r]] of Kraus operators
+        # describes the completely positive map with A_a = B_a = K_a.
+        if isinstance(phi[0], np.ndarray):
+            phi = [[k_mat, k_mat] for k_mat in phi]
+        elif len(phi[0]) == 1 or (len(phi) == 1 and len(phi[0]) > 2):
+            phi = [[k_mat, k_mat] for row in phi for k_mat in row]
         phi_l = [A for A, _ in phi]
         phi_r = [B for _, B in phi]
 
